@@ -1663,6 +1663,9 @@ class SFSDistribution(PhaseTypeDistribution, ABC):
         :param theta: The mutation rate.
         :return: Transition matrix and exit vector.
         """
+        # make sure the (possibly shared) state space points to the epoch of this distribution's demography
+        self.state_space.update_epoch(self.demography.get_epoch(0))
+
         # get non-absorbing states
         non_absorbing = TreeHeightReward()._get(self.state_space).astype(bool)
 
